@@ -43,7 +43,7 @@ pub struct PropRun {
 
 /// C20 says the counter never underflows: with overflow checks on, an underflow of the send buffer counter is a panic in packet_sender.rs.
 fn c20_underflow(p: &str, ctx: &str) -> Violation {
-    if p.contains("subtract with overflow") && p.contains("packet_sender.rs") { Violation { clause: "C20.underflow".into(), sig: "C20.underflow".into(), detail: format!("{}: the send buffer counter underflowed: {}", ctx, p) } }
+    if (p.contains("subtract with overflow") || p.contains("total_size")) && p.contains("packet_sender.rs") { Violation { clause: "C20.underflow".into(), sig: "C20.underflow".into(), detail: format!("{}: the send buffer counter underflowed: {}", ctx, p) } }
     else { Violation { clause: "C20.other-panic".into(), sig: "C20.other-panic:not-a-verdict".into(), detail: String::new() } }
 }
 
